@@ -25,6 +25,8 @@ func c11(c *eng.Ctx, r *eng.Report) {
 		"R11.9 a write attempt in read-only context surfaces as ErrWriteProtection: Run refuses rows flagged `writes` under the interpreter-wide in.readOnly flag (not the frame argument) before operation.execute, and the flag is sticky across nested frames (shared with C12). " +
 		"R11.10 callGas/authCallGas return min(request, a - a/64) with a = available - base, and the four call-family gas functions call callGas(true, contract.Gas, …). " +
 		"R11.11 a precompile runs only after the caller paid for it, and the price compared with the supplied gas is RequiredGas(input) itself — no unchecked arithmetic between pricing and the affordability test (the precompiles size their allocations from the input on the strength of that price: MODEXP allocates what the header announces); " +
+		"R11.12 no opcode handler slices a buffer with a bound that is the unchecked 64-bit sum or product of operand-derived values (`buf[off:off+len]` wraps for off near 2^64 and the slice expression panics): such bounds come out of 256-bit arithmetic with Uint64WithOverflow, SafeAdd/SafeMul, or the clamping accessor getData; " +
+		"R11.13 every modular exponentiation in package vm whose modulus comes from the input runs only after the modulus was tested non-zero (big.Int.Exp with m == 0 is plain exponentiation: priced as modular work it neither terminates nor bounds its allocation); " +
 		"Not decided: termination as such, exact gas values."
 	r.Assume = []string{"memory is grown only by Run (mem.Resize) to the size computed by the row's memorySize function", "no recover() exists in vm/executor/core, so a reachable panic crashes the host"}
 	rows := analyseRows(c, r, "R11.1")
@@ -39,6 +41,8 @@ func c11(c *eng.Ctx, r *eng.Report) {
 	c11RunOrder(c, r)
 	c11SixtyThreeSixtyFourths(c, r)
 	c11PrecompileGas(c, r)
+	c11SliceBounds(c, r, rows)
+	c11ModulusNonZero(c, r)
 	// R11.9 write attempts in read-only context surface as a failed call: the interpreter refuses
 	// write rows under the *sticky* in.readOnly flag before executing them (shared with C12 R12.2/R12.3)
 	if run := c.Func("vm", "(*EVMInterpreter).Run"); r.Anchor(run != nil, "R11.9", "vm.(*EVMInterpreter).Run") {
@@ -1107,4 +1111,119 @@ func c11PrecompileGas(c *eng.Ctx, r *eng.Report) {
 		}
 	}
 	r.Check(ok, rule, "precompile:price-then-run", c.Pos(run.Pos()), "Run is reached only on suppliedGas >= RequiredGas(input), the price taken as returned", "RunPrecompiledContract: "+why+" — unchecked uint64 arithmetic on the price can wrap (MODEXP's price is chosen by the input: a header with a 1.5e18-byte exponent prices near 2^64/30), the affordability test passes and Run allocates what the header announces: the host panics in makeslice instead of returning ErrOutOfGas")
+}
+
+// c11SliceBounds: operands are attacker-chosen 256-bit words; their low 64 bits
+// can sit anywhere in [0, 2^64).
+func c11SliceBounds(c *eng.Ctx, r *eng.Report, rows []rowFx) {
+	const rule = "R11.12"
+	r.Min(rule, 1)
+	fromOperand := func(v ssa.Value) bool {
+		seen := map[ssa.Value]bool{}
+		var walk func(x ssa.Value, d int) bool
+		walk = func(x ssa.Value, d int) bool {
+			if x == nil || d > 6 || seen[x] {
+				return false
+			}
+			seen[x] = true
+			if call, ok := x.(*ssa.Call); ok {
+				n := eng.CallName(&call.Call)
+				if strings.HasSuffix(n, "uint256.Int).Uint64") || strings.HasSuffix(n, "uint256.Int).Uint64WithOverflow") {
+					return true
+				}
+				return false
+			}
+			if in, ok := x.(ssa.Instruction); ok {
+				var ops []*ssa.Value
+				for _, o := range in.Operands(ops) {
+					if *o != nil && walk(*o, d+1) {
+						return true
+					}
+				}
+			}
+			return false
+		}
+		return walk(v, 0)
+	}
+	done := map[*ssa.Function]bool{}
+	n, nslices := 0, 0
+	for _, rf := range rows {
+		fn := rf.Row.Exec
+		if fn == nil || done[fn] {
+			continue
+		}
+		done[fn] = true
+		n++
+		i := 0
+		for _, b := range fn.Blocks {
+			for _, in := range b.Instrs {
+				sl, ok := in.(*ssa.Slice)
+				if !ok {
+					continue
+				}
+				for _, bound := range []ssa.Value{sl.Low, sl.High} {
+					bo, isB := bound.(*ssa.BinOp)
+					if !isB || (bo.Op != token.ADD && bo.Op != token.MUL && bo.Op != token.SHL) {
+						continue
+					}
+					if !fromOperand(bo.X) && !fromOperand(bo.Y) {
+						continue
+					}
+					nslices++
+					key := fmt.Sprintf("slice-bound:%s#%d", eng.FuncName(fn), i)
+					i++
+					r.Fail(rule, key, c.Pos(sl.Pos()), eng.FuncName(fn)+" slices with the bound "+eng.Desc(bo)+", an unchecked 64-bit "+bo.Op.String()+" of operand-derived values: for an operand near 2^64 the sum wraps below the length test and the slice expression panics (low > high) — the host crashes instead of the call failing")
+				}
+			}
+		}
+	}
+	if nslices == 0 {
+		r.Pass(rule, "slice-bound:none", "", fmt.Sprintf("no slice bound in the %d opcode handlers is an unchecked sum/product of operand-derived values", n))
+	}
+}
+
+// c11ModulusNonZero: (*big.Int).Exp(x, y, m) treats m == 0 (and m == nil) as
+// "no modulus".
+func c11ModulusNonZero(c *eng.Ctx, r *eng.Report) {
+	const rule = "R11.13"
+	r.Min(rule, 1)
+	n := 0
+	for _, fn := range c.PkgFuncs("vm") {
+		if c.IsTestFunc(fn) {
+			continue
+		}
+		i := 0
+		for _, s := range eng.Sites(fn) {
+			if s.Name() != "(*math/big.Int).Exp" || len(s.Common().Args) < 4 {
+				continue
+			}
+			m := s.Common().Args[3]
+			if eng.IsNilConst(m) {
+				continue // deliberately non-modular (a power bounded by its operands, e.g. 256^k tables)
+			}
+			if g, isG := unload(m).(*ssa.Global); isG {
+				_ = g
+				continue // a package constant
+			}
+			n++
+			key := fmt.Sprintf("modexp:%s#%d", eng.FuncName(fn), i)
+			i++
+			guarded := false
+			for _, cd := range eng.CondsAt(s.Instr) {
+				cm, ok := cd.Cmp()
+				if !ok {
+					continue
+				}
+				d := eng.Desc(cm.X)
+				if !(strings.Contains(d, ".BitLen(") || strings.Contains(d, ".Sign(")) || !strings.Contains(d, eng.Desc(m)) {
+					continue
+				}
+				if k, isK := eng.ConstInt(cm.Y); isK && k == 0 && (cm.Op == token.NEQ || cm.Op == token.GTR) {
+					guarded = true
+				}
+			}
+			r.Check(guarded, rule, key, c.Pos(s.Pos()), "runs only on the modulus-is-non-zero edge", eng.FuncName(fn)+" calls big.Int.Exp with the input-supplied modulus "+eng.Desc(m)+" without having tested it non-zero: for a zero modulus Exp computes the plain power — with 32-byte operands that never terminates and allocates without bound, for gas priced as a modular exponentiation")
+		}
+	}
+	r.Check(n >= 1, rule, "modexp:sites", "", fmt.Sprintf("%d modular exponentiations with an input-supplied modulus", n), "no big.Int.Exp with a modulus found in package vm (bigModExp.Run expected)")
 }
